@@ -52,7 +52,11 @@ class FeedbackFieldWrapper:
         return str(self.value)
 
     def __format__(self, format_spec):
-        value = str(self.value)
+        try:
+            value = str(self.value)
+        except Exception as error:
+            # (a student's value whose own __str__ / __repr__ fails can still be mentioned)
+            value = f"<unprintable {type(self.value).__name__}: {type(error).__name__}>"
         for formatter_name in self.formatter.available:
             if format_spec.endswith(formatter_name):
                 format_spec = chomp_spec(format_spec, formatter_name)
